@@ -206,10 +206,15 @@ func (retrySuite) Gen(r *Rng, i int, tier string) any {
 			c.Script[0].End = "f"
 		}
 	}
-	// the consumer
+	// the consumer: enough operations to get through the file although every body Read may be capped by
+	// the chunk script and every fault costs a Read, plus a few after the end
 	style := r.Intn(5)
-	budget := len(data)*2 + 40
-	for n := 0; budget > 0 && n < 400; n++ {
+	typ := []int{2, 16, 512, len(data) + 1, 16}[style]
+	nOps := len(data)/typ + 10*len(c.Script) + 4 + r.Intn(8)
+	if nOps > 400 {
+		nOps = 400
+	}
+	for n := 0; n < nOps; n++ {
 		var m int
 		switch style {
 		case 0:
@@ -233,7 +238,6 @@ func (retrySuite) Gen(r *Rng, i int, tier string) any {
 			c.Ops = append(c.Ops, rOp{Close: true})
 		}
 		c.Ops = append(c.Ops, rOp{M: m})
-		budget -= m + 1
 	}
 	return c
 }
